@@ -353,11 +353,15 @@ def resolve_auto_ids(mm, snap):
     for e in mm.edges:
         if e in autos:
             target = None
-            for f in free:
-                if f in used:
-                    continue
-                if E.eqm(snap["members"][f], mm.edges[e]):
-                    target = f
+            for want_attrs in (True, False):  # prefer a candidate whose attributes match too
+                for f in free:
+                    if f in used:
+                        continue
+                    if E.eqm(snap["members"][f], mm.edges[e]) and (
+                            not want_attrs or snap["eattr"][f] == mm.eattr[e]):
+                        target = f
+                        break
+                if target is not None:
                     break
             if target is None:
                 target = e
@@ -398,8 +402,9 @@ def model_lshift(a, b):
     i = 0
     for src in (a, b):
         for e in src.edges:
-            out.edges[i] = set(src.edges[e])
-            out.eattr[i] = deepcopy(src.eattr[e])
+            # "relabels all the edge IDs": which fresh IDs is not pinned, the order is
+            out.edges[("__auto__", i)] = set(src.edges[e])
+            out.eattr[("__auto__", i)] = deepcopy(src.eattr[e])
             i += 1
     out.net = deepcopy(a.net)
     out.net.update(deepcopy(b.net))
